@@ -1143,7 +1143,9 @@ def assignable(L: Lang11, W, T, sw: dict, strict_types=False):
     cand = {}
     for k, s in steps.items():
         d = S[s]
-        is_out = k in outs
+        # a step named as an output is one step of the task, wherever it occurs: with unfold_tree
+        # each of its occurrences stands at the output (the generated query and its model say so too)
+        is_out = k in outs or s in T["outs"]
         is_in = sw.get("by_io", True) and d["input"]
         if not chron and not is_out and not is_in:
             continue            # unconstrained without chronology
@@ -1366,7 +1368,14 @@ def corrupt(rng, L: Lang11, W, T):
     S = T2["steps"]
     live = reachable(T2)
     what = rng.choice(["type_other", "type_other", "op_other", "op_other", "swap", "foreign_child",
-                       "cycle", "extra_output"])
+                       "cycle", "extra_output", "output_inner", "output_inner"])
+    if what == "output_inner":
+        # a step that feeds another step is ALSO named as an output of the task
+        inner = [c for p_ in live for c in S[p_]["from"] if c not in T2["outs"]]
+        if not inner:
+            return None, None
+        T2["outs"].append(rng.choice(inner))
+        return T2, what
     if what == "type_other":
         typed = [s for s in live if S[s]["types"]]
         if not typed:
